@@ -126,11 +126,7 @@ def run(run, rng):
                        'order of strings inside a level is not part of the property; equality across cache histories is checked on the exact sequence']
     for i in range(N[run.tier]):
         case = gen_case(rng)
-        try:
-            with timebox(60):
-                check_case(run, case)
-        except CaseTimeout:
-            run.inconc('case watchdog')
+        run.guard(case, check_case, seconds=60)
 
 def replay(run, case):
     check_case(run, case['case'])
